@@ -562,6 +562,33 @@ Proof.
   intros [|]; [|exact claim_checked_no_coin_panic].
   exists 5000, (1000 * PREC), PREC, 0, 1700000005, 1700000031, 0, 1000000. vm_compute. reflexivity.
 Qed.
+(* the same for the dynamic-rate claim: the guarded code returns an error on a negative duration *)
+Lemma claim_dyn_checked_no_coin_panic : forall poolbal rate w cstart last now cend expiry dyn lastcalc,
+  claim_dyn false poolbal rate w cstart last now cend expiry dyn lastcalc <> Panic "neg-coin".
+Proof.
+  intros. unfold claim_dyn. destruct (w =? 0); [discriminate|].
+  destruct (_ <=? _); [discriminate|].
+  match goal with |- context [relabel (dmul rate ?d)] => destruct (relabel_dmul_cases rate d) as [[r ->]| ->]; [|discriminate] end.
+  cbn [bind]. destruct (relabel_dmul_cases r w) as [[r2 ->]| ->]; [|discriminate]. cbn [bind].
+  destruct (_ <? 0); [discriminate|]. destruct (_ <? _); discriminate.
+Qed.
+(* TIME dimension: the dry run (before the claim end) succeeds, the rate is recalculated after the claim end,
+   enactment computes a negative duration: without the amount guard sdk.NewCoin panics *)
+Lemma claim_negative_duration_refuted : exists poolbal rate w cstart last now1 now2 cend expiry lastcalc1 lastcalc2,
+  now1 <= cend /\ cend < lastcalc2 <= now2 /\
+  is_ok (claim_dyn true poolbal rate w cstart last now1 cend expiry true lastcalc1) = true /\
+  claim_dyn true poolbal rate w cstart last now2 cend expiry true lastcalc2 = Panic "neg-coin".
+Proof.
+  exists 1000000, PREC, PREC, 0, 1700000010, 1700000020, 1700000100, 1700000050, 1000000, 1700000005, 1700000060.
+  split; [lia|]. split; [lia|]. split; vm_compute; reflexivity.
+Qed.
+Lemma claim_dyn_by_flag : forall b : bool,
+  if b then (exists poolbal rate w cstart last now cend expiry dyn lastcalc, claim_dyn b poolbal rate w cstart last now cend expiry dyn lastcalc = Panic "neg-coin")
+  else (forall poolbal rate w cstart last now cend expiry dyn lastcalc, claim_dyn b poolbal rate w cstart last now cend expiry dyn lastcalc <> Panic "neg-coin").
+Proof.
+  intros [|]; [|exact claim_dyn_checked_no_coin_panic].
+  exists 1000000, PREC, PREC, 0, 1700000010, 1700000100, 1700000050, 1000000, true, 1700000060. vm_compute. reflexivity.
+Qed.
 Lemma ubi_by_flag : forall b : bool,
   if b then (exists amount, 0 <= amount < two64 /\ ubi_mint_on b amount = Panic "neg-coin")
   else (forall amount, is_panic (ubi_mint_on b amount) = false).
